@@ -431,6 +431,10 @@ theorem half_high (m : Sim) (h : CycOK m.flat m.clk topo m.st.rd.info) (hl : ∀
       exact hidem.symm
     | cons ep0 rest =>
       rw [← hprocs]
+      have hne : (m.flat.procs.map Prod.snd).isEmpty = false := by rw [hprocs]; rfl
+      rw [deltaLoop]
+      simp only [hne, Bool.false_eq_true, if_false]
+      trace_state
       sorry
   · sorry
 
